@@ -10,10 +10,11 @@
   again, `parents()` loses its PID-keyed cycle stop, an identity pre-check, the `_gone` test or the
   lowest-PID stop is dropped, `ppid_map()` stops skipping unreadable/vanished stat files, POSIX `ppid()`
   grows a per-object cache, `create_time()` loses its cache, or a stat reader uses `find`/another index.
-  The fact `rootGuarded` (identity check before the lowest-PID stop of `parent()`) is NOT pinned: it is
-  `false` in psutil as found — known finding C05-recycled-lowest-pid, PENDING(fixes/C05-parent-root-recycled.diff)
-  — and every theorem below that depends on it says so (`cfg.rootGuarded = true` as a hypothesis, or a
-  counterexample for the as-found configuration).
+  The fact `rootGuarded` (identity check before the lowest-PID stop of `parent()`) is pinned by the obligation
+  `cfg_root_guarded` since /repo d7107b4 (fixes/C05-parent-root-recycled.diff, former finding
+  C05-recycled-lowest-pid): `C05_recycled_caller_NSP_parent_full` / `C05_dead_caller_NSP_X_parent_full` are the
+  last clause of the statement at full strength for the code as it is; what the unguarded stop did is kept as a
+  what-if (`C05_recycled_lowest_pid_counterexample`, `C05_recycled_lowest_pid_unguarded`: configuration `asFoundCfg`).
 
   Conventions: `pm` is what `ppid_map()` returned (ANY list of pairs — forests, self-loops,
   cycles, unlisted parents), `look0` the world when the caller's identity is checked, `look`
@@ -956,26 +957,29 @@ theorem C05_vanishing_needs_skip :
 
   `parent()` starts with its lowest-PID stop (`if self.pid == lowest_pid: return None`) and only then calls
   `ppid()`, which checks the identity. A caller whose PID has been recycled and now IS the lowest listed PID
-  therefore gets `None` / `[]` instead of NoSuchProcess. Known finding **C05-recycled-lowest-pid**,
-  PENDING(fixes/C05-parent-root-recycled.diff): the stop calls `self._raise_if_pid_reused()` before it answers
-  (fact `rootGuarded`). -/
+  therefore got `None` / `[]` instead of NoSuchProcess: former finding **C05-recycled-lowest-pid**, repaired in
+  /repo d7107b4 (fixes/C05-parent-root-recycled.diff): the stop calls `self._raise_if_pid_reused()` before it
+  answers (fact `rootGuarded`, obligation `cfg_root_guarded`). The unguarded stop is kept as a what-if
+  configuration (`asFoundCfg`). -/
 
 /-- the last clause of the statement for `parent()`/`parents()`, WITHOUT the proviso "not the lowest PID" -/
 def C05_recycled_caller_NSP_parent_Full (c : Cfg) : Prop :=
   ∀ (ps : Ps) (T : Table) (me : Caller), (ps.lowest = none ∨ ps.lowest = minPid? T) → Recycled (lookOf T) me →
     (parent c ps T me).2.2 = .nsp me.pid ∧ (parents c ps T me).2 = .nsp me.pid
 
-/-- psutil as found: every repair of this property except the identity check before the lowest-PID stop -/
+/-- psutil before d7107b4 (what-if): every repair of this property except the identity check before the
+    lowest-PID stop -/
 def asFoundCfg : Cfg := { fixedCfg with rootGuarded := false }
 
 /-- the object was built for (PID 2, start 10); PID 2 now belongs to a process started at 15 and is the lowest
     listed PID -/
 def tRootRecycled : Table := [⟨2, 0, 15⟩, ⟨6, 2, 20⟩]
 
-/-- **C05_recycled_lowest_pid_counterexample.** The full statement is FALSE of the code as found: on the 2-row
-    witness `parent()` answers None and `parents()` `[]` for the recycled caller (while `children()` of the same
-    object raises NoSuchProcess(2)); with the guarded stop both raise. Replayed on the real code
-    (corpus `recycled-lowest-pid`). -/
+/-- **C05_recycled_lowest_pid_counterexample.** WHAT-IF (the code before d7107b4): with the unguarded stop the full
+    statement is FALSE: on the 2-row witness `parent()` answers None and `parents()` `[]` for the recycled caller
+    (while `children()` of the same object raises NoSuchProcess(2)); with the guarded stop — the code as it is —
+    both raise. The witness is replayed on the real code on every run (corpus `recycled-lowest-pid`: now
+    NoSuchProcess(2); on a tree with the fix reverted the check exits 1 on it). -/
 theorem C05_recycled_lowest_pid_counterexample :
     Recycled (lookOf tRootRecycled) ⟨2, 10, false, false⟩
     ∧ (parent asFoundCfg ⟨none⟩ tRootRecycled ⟨2, 10, false, false⟩).2.2 = .ok none
@@ -993,33 +997,35 @@ theorem C05_recycled_lowest_pid_counterexample :
   rw [hp] at this
   cases this
 
-/-- …and it is the code as it is that the witness speaks about whenever the fact says "not guarded" -/
-theorem C05_recycled_lowest_pid_as_found (h : cfg.rootGuarded = false) :
-    ¬ C05_recycled_caller_NSP_parent_Full cfg := by
+/-- WHAT-IF, for EVERY configuration: a lowest-PID stop without the identity check refutes the full statement
+    (why the fact `rootGuarded` matters; `cfg` itself is guarded: `cfg_root_guarded`) -/
+theorem C05_recycled_lowest_pid_unguarded (c : Cfg) (hl : c.lowestStop = true) (h : c.rootGuarded = false) :
+    ¬ C05_recycled_caller_NSP_parent_Full c := by
   intro hf
   have hrec : Recycled (lookOf tRootRecycled) ⟨2, 10, false, false⟩ := ⟨15, by decide, by decide⟩
   have h1 := (hf ⟨none⟩ tRootRecycled ⟨2, 10, false, false⟩ (Or.inl rfl) hrec).1
-  have h2 : (parent cfg ⟨none⟩ tRootRecycled ⟨2, 10, false, false⟩).2.2 = .ok none := by
+  have h2 : (parent c ⟨none⟩ tRootRecycled ⟨2, 10, false, false⟩).2.2 = .ok none := by
     unfold parent
-    simp [cfg_good.lowestStop, h, lowestPid, minPid?, tRootRecycled, Table.pids]
+    simp [hl, h, lowestPid, minPid?, tRootRecycled, Table.pids]
   rw [h2] at h1
   cases h1
 
 /-- **C05_recycled_caller_NSP_parent_repaired.** With the guarded stop the last clause of the statement holds at
-    FULL strength for `parent()` and `parents()`: every recycled caller, the lowest PID included. (After the fix
-    has landed: `cfg_root_guarded` below becomes an obligation and this is a statement about the code as it is.) -/
+    FULL strength for `parent()` and `parents()`: every recycled caller, the lowest PID included (the conditional
+    form; `cfg_root_guarded` below discharges the hypothesis for the code as it is). -/
 theorem C05_recycled_caller_NSP_parent_repaired (h : cfg.rootGuarded = true) :
     C05_recycled_caller_NSP_parent_Full cfg :=
   fun ps T me hfresh hrec => C05_recycled_caller_NSP_parent ps T me hfresh (Or.inr h) hrec
 
-/- AFTER fixes/C05-parent-root-recycled.diff HAS LANDED (then `./check C05 --rebaseline`, move the finding to a
-   `fixed:` line in findings/C05.json, `python3 tools/merge_findings.py`) uncomment:
-
+/-- obligation on the fact `rootGuarded` (landed as /repo d7107b4): the lowest-PID stop of `parent()` runs
+    `self._raise_if_pid_reused()` before it answers None — breaks when the guard is dropped or moved -/
 theorem cfg_root_guarded : cfg.rootGuarded = true := by decide
 
+/-- **C05_recycled_caller_NSP_parent_full.** The code as it is: "all of these raise NoSuchProcess when the caller's
+    own PID has been recycled" for `parent()` and `parents()` at FULL strength — every recycled caller, the lowest
+    listed PID included, no proviso. -/
 theorem C05_recycled_caller_NSP_parent_full : C05_recycled_caller_NSP_parent_Full cfg :=
   C05_recycled_caller_NSP_parent_repaired cfg_root_guarded
--/
 
 /-- the same in the richer world: with the guarded stop a caller that is dead at the identity check gets
     NoSuchProcess from `parent()` and `parents()` whatever its PID and whatever the worlds show -/
@@ -1030,6 +1036,16 @@ theorem C05_dead_caller_NSP_X_parent_repaired (h : cfg.rootGuarded = true) (fuel
     (parentX cfg ps (W 0) me os).2.2.2 = .nsp me.pid ∧ (parentsX cfg (fuel + 1) ps W me os).2 = .nsp me.pid :=
   ⟨C05_parent_dyn_dead_NSP ps (W 0) me os low hlow hos hr hgone (Or.inr h) hdead,
    C05_parents_dyn_dead_NSP fuel ps W me os low hlow hos hr hgone (Or.inr h) hdead⟩
+
+/-- **C05_dead_caller_NSP_X_parent_full.** The code as it is, richer world: a caller dead at the identity check
+    (exited, recycled, or its PID's new owner unreadable) gets NoSuchProcess from `parent()` and `parents()`
+    WHATEVER its PID — the lowest listed one included — and whatever the worlds show. -/
+theorem C05_dead_caller_NSP_X_parent_full (fuel : Nat) (ps : Ps) (W : Nat → PStep)
+    (me : Caller) (os : Oneshot) (low : Nat) (hlow : lowestPidX ps (W 0).listing = (⟨some low⟩, some low))
+    (hos : ∀ pp, os ≠ some (some pp)) (hr : me.reused = false) (hgone : me.gone = false)
+    (hdead : ¬ SameAt (W 0) me.pid me.ctime) :
+    (parentX cfg ps (W 0) me os).2.2.2 = .nsp me.pid ∧ (parentsX cfg (fuel + 1) ps W me os).2 = .nsp me.pid :=
+  C05_dead_caller_NSP_X_parent_repaired cfg_root_guarded fuel ps W me os low hlow hos hr hgone hdead
 
 /-! ### (a') the literal reading of `parent()` / `parents()`: no lowest-PID rule in the statement
 
